@@ -55,8 +55,21 @@ class Proc:
         self.p = subprocess.Popen(self.cmd, cwd=HARNESS_DIR, env=env(), stdout=self.log,
                                   stderr=subprocess.STDOUT, preexec_fn=_limits(mem_gb))
         self.timed_out = False
+        self.peak_rss_gb = 0.0
+        self._last_sample = 0.0
+
+    def sample_rss(self):
+        try:
+            out = subprocess.run(['ps', '-o', 'rss=', '-g', str(self.p.pid)], capture_output=True, text=True).stdout
+            tot = sum(int(x) for x in out.split() if x.isdigit()) / (1 << 20)
+            self.peak_rss_gb = max(self.peak_rss_gb, round(tot, 2))
+        except Exception:
+            pass
 
     def poll(self):
+        if time.time() - self._last_sample > 5:
+            self._last_sample = time.time()
+            self.sample_rss()
         r = self.p.poll()
         if r is None and time.time() - self.t0 > self.cap_s:
             self.timed_out = True
@@ -70,9 +83,16 @@ class Proc:
         return r
 
 
-CHECK_RE = re.compile(r'^Check (\d+): (\S+)\n\t - Status: (\w+)\n\t - Description: "(.*)"\n(?:\t - Location: (.*)\n)?', re.M)
+CHECK_RE = re.compile(r'^Check (\d+): (.+)\n\t - Status: (\w+)\n\t - Description: "(.*)"\n(?:\t - Location: (.*)\n)?', re.M)
 PLAY_RE = re.compile(r'/// Check for `(\w+)`: "(.*)"\n(?:///.*\n)*#\[test\]\nfn (\w+)\(\) \{\n\s*let concrete_vals: Vec<Vec<u8>> = vec!\[\n(.*?)\n\s*\];', re.S)
 VEC_RE = re.compile(r'vec!\[([0-9, ]*)\]')
+
+
+def unq(s):
+    s = s.replace('\\"', '"')
+    while len(s) >= 2 and s[0] == '"' and s[-1] == '"':
+        s = s[1:-1]
+    return s
 
 
 def parse_log(path):
@@ -80,10 +100,10 @@ def parse_log(path):
     res = {'checks': [], 'playback': [], 'stubs': [], 'raw_status': None, 'stats': {}}
     for m in CHECK_RE.finditer(txt):
         res['checks'].append({'n': int(m.group(1)), 'id': m.group(2), 'status': m.group(3),
-                              'desc': m.group(4), 'loc': m.group(5) or ''})
+                              'desc': unq(m.group(4)), 'loc': m.group(5) or ''})
     for m in PLAY_RE.finditer(txt):
         vals = [[int(x) for x in v.split(',') if x.strip()] for v in VEC_RE.findall(m.group(4))]
-        res['playback'].append({'kind': m.group(1), 'label': m.group(2), 'test': m.group(3), 'vals': vals})
+        res['playback'].append({'kind': m.group(1), 'label': unq(m.group(2)), 'test': m.group(3), 'vals': vals})
     m = re.search(r'^VERIFICATION:- (\w+)(.*)$', txt, re.M)
     if m:
         res['raw_status'] = m.group(1)
